@@ -1,7 +1,7 @@
 (* C10 — property theorems only. Source = C10.Src, regenerated from /repo on this run. *)
 From Coq Require Import Reals ZArith String List Bool Lra.
 Require Import Py.PyAst Py.PyVal Py.PySem Py.XLemmas Py.Interp.
-Require Import C10.Src C10.Model.
+Require Import C10.Src C10.Model C10.RouteN.
 Require C10.Wiring.
 Import ListNotations.
 Open Scope string_scope.
@@ -90,3 +90,22 @@ Theorem C10_scaling_reaches_the_data_likelihood : forall (D : list val -> list (
     (Wiring.num (D args kws + 0)) (S (S cu)) [("log_likelihood", (args ++ map snd kws)%list)].
 Proof. intros D K ifu ddt dd dl beta lam lifu al be g x y kap mu rg cu l H. exact (Wiring.single_wiring D K ifu ddt dd dl beta lam lifu al be g x y kap mu rg cu H). Qed.
 Print Assumptions C10_scaling_reaches_the_data_likelihood.
+
+(* FOR ANY NUMBER OF SCALING DIMENSIONS (induction over the interpreter's loop, RouteN.v): with a name list of any length and an ARBITRARY
+   dictionary - any order, any extra keys - kwargs2param_array returns, in the DECLARED order, what the dictionary holds under each declared name
+   ([value_of d n] is [kwargs.get(n)]); and the first declared name that the dictionary lacks raises ValueError whatever comes before or after it *)
+Theorem C10_routing_any_length : forall (names : list string) (d : list (val * val)) (w : world),
+  (forall n, In n names -> dict_get (VStr n) d <> None) ->
+  call G 60 (CFun src_KinScalingParamManager_kwargs2param_array) (Some (selfR names)) [VDict d] [] w
+  = Ok (VList (map (value_of d) names), w).
+Proof. exact routing_any_length. Qed.
+Print Assumptions C10_routing_any_length.
+Theorem C10_missing_any_length : forall (pre : list string) (n : string) (rest : list string) (d : list (val * val)) (w : world),
+  (forall m, In m pre -> dict_get (VStr m) d <> None) -> dict_get (VStr n) d = None ->
+  call G 60 (CFun src_KinScalingParamManager_kwargs2param_array) (Some (selfR (pre ++ n :: rest))) [VDict d] [] w = Exc "ValueError".
+Proof. exact missing_any_length. Qed.
+Print Assumptions C10_missing_any_length.
+Example C10_routing_any_length_instance :
+  map (value_of [(VStr "extra", VInt 0); (VStr "gamma_pl", VInt 2); (VStr "a_ani", VInt 1); (VStr "beta_inf", VInt 3)]) ["a_ani"; "beta_inf"; "gamma_pl"]
+  = [VInt 1; VInt 3; VInt 2].
+Proof. reflexivity. Qed.
